@@ -294,6 +294,20 @@ Fixpoint mrun (sg : bool) (m : mstate) (tr : list mevent) : option mstate :=
   | e :: tr' => match mstep sg m e with Some m' => mrun sg m' tr' | None => None end
   end.
 
+(* sequential histories: one operation at a time, each running to completion without a
+   failure: Push = manifest PUT, then the index update with [Add d]; Delete = the index
+   update with [Remove d], then the manifest DELETE *)
+Definition seq_op (st : option index * list N) (c : change) : option index * list N :=
+  let (r, live) := st in
+  let r' := match apply_changes (idx r) [c] with
+            | Updated l => Some l      (* new index pushed (an empty one is deleted: same set) *)
+            | NoUpdate => r
+            end in
+  match c with
+  | Add d => (r', dkey d :: live)
+  | Remove d => (r', filter (fun x => negb (x =? dkey d)) live)
+  end.
+
 (* ---------- replay of a visible schedule ----------
    What the harness sees between two quiescent points of the real code: a caller
    starts (VG), the main caller's index GET / PUT / DELETE is answered (VP / VU / VD,
